@@ -298,9 +298,14 @@ class CHECK(core.Check):
         for tok in case["pre"]:
             if (tok[0] == "S" and case["kind"] != "stack") or (tok[0] == "H" and case["kind"] != "patron"):
                 return ["bad-request"]
-        return [self._req(case)]
+        # the two region predicates ride along so that attributing a failing input costs no extra driver process
+        return [self._req(case), self._req(case, "region D27"), self._req(case, "region D28")]
+
+    _regions = {}
 
     def model_post(self, case, replies):
+        if len(replies) == 3:
+            self._regions[core.case_key(case)] = {"D27": replies[1] == "true", "D28": replies[2] == "true"}
         return replies[0].split(" | ")
 
     # ---- oracle
@@ -388,6 +393,9 @@ class CHECK(core.Check):
     def region(self, finding, case):
         fid = finding.get("id")
         if fid in ("D27", "D28"):
+            hit = self._regions.get(core.case_key(case))
+            if hit is not None:
+                return hit[fid]
             r = core.Driver(self.ENGINE).run([self._req(case, "region " + fid)])
             return r == ["true"]
         return False
